@@ -394,6 +394,7 @@ class ParamFlow(Contract):
             I.e.prove('C12/generate_index/save_annotation/proteome-is-the-loaded-proteome', isinstance(b['proteome'], SymObj) and b['proteome'].cls == 'ProteomeStub')
             I.e.prove('C12/generate_index/save_annotation/invalid_protein_as_noncoding', b['invalid_protein_as_noncoding'] is ao['invalid_protein_as_noncoding'])
             I.e.prove('C12/generate_index/save_annotation/symlink', b['symlink'] is ao['gtf_symlink'])
+            st.calls.append(('save_annotation', [b['proteome']], {}))
             return SymObj('AnnoStub10', source='GENCODE', transcripts={})
         reg.method_('IndexDirStub', 'save_annotation', save_annotation)
         reg.method_('IndexDirStub', 'load_annotation', lambda I, o, a, k: SymObj('AnnoStub10', source='GENCODE', transcripts={}))
@@ -454,8 +455,27 @@ class GenerateIndexFlow(ParamFlow):
         return st
 
     def post_return(self, I, st, ret):
-        I.e.prove('C10/O6/generate_index/pool-built-and-saved-once',
-                  len([x for x in st.calls if x[0] == 'create_unique_peptide_pool']) == 1 and len(st.saved) == 1)
+        e = I.e
+        e.prove('C10/O6/generate_index/pool-built-and-saved-once',
+                len([x for x in st.calls if x[0] == 'create_unique_peptide_pool']) == 1 and len(st.saved) == 1)
+        names = [x[0] for x in st.calls]
+        first = lambda nm: names.index(nm) if nm in names else None
+        once = lambda nm: names.count(nm) == 1
+        e.prove('C12/generate_index/genome-proteome-annotation-coding-transcripts-and-metadata-each-saved-once-the-metadata-last',
+                all(once(nm) for nm in ('save_genome', 'save_proteome', 'save_annotation', 'save_coding_tx', 'save_metadata')) and names[-1] == 'save_metadata')
+        # what load_proteome returns later must be the proteome that was given: the annotation check (with --invalid-protein-as-noncoding)
+        # removes entries from the object and the digestion rewrites sequences in place, so it is pickled before either
+        sp = first('save_proteome')
+        ok = sp is not None and isinstance(st.calls[sp][1][0] if st.calls[sp][1] else None, SymObj) and st.calls[sp][1][0].cls == 'ProteomeStub'
+        e.prove('C12/generate_index/the-proteome-is-saved-as-parsed-before-the-annotation-check-and-the-digestion-can-change-it',
+                ok and all(first(nm) is not None and sp < first(nm) for nm in ('save_annotation', 'create_unique_peptide_pool')))
+        if 'wipe_canonical_peptides' in names:
+            w = first('wipe_canonical_peptides')
+            saves = [i for i, nm in enumerate(names) if nm.startswith('save_')]
+            im = first('init_metadata')
+            # so that the recorded versions are those of this run
+            e.prove('C12/generate_index/force/after-wiping-the-old-pools-the-metadata-is-initialised-again-before-anything-is-written',
+                    im is not None and w < im and all(im < i for i in saves))
 
     def post_raise(self, I, st, exc):
         I.e.prove('C12/generate_index/exit-only-when-directory-exists-without-force',
